@@ -26,7 +26,10 @@ def module_ast(modname):
         path = module_path(modname)
         with open(path, encoding='utf-8') as f:
             src = f.read()
-        _ast_cache[modname] = (ast.parse(src, filename=path), src)
+        import warnings
+        with warnings.catch_warnings():
+            warnings.simplefilter('ignore')
+            _ast_cache[modname] = (ast.parse(src, filename=path), src)
     return _ast_cache[modname][0]
 
 
